@@ -41,6 +41,7 @@ class Run:
                                "detail": detail, "loc": loc, "nontrivial": nontrivial})
 
     def violation(self, rule, key, detail, loc=None, witness=None):
+        detail = detail.replace("\n", " ").replace("\r", " ")
         d = {"rule": rule, "key": key, "verdict": "violated", "detail": detail,
              "loc": loc, "witness": witness, "nontrivial": True}
         for o in self.violations:
